@@ -12,6 +12,7 @@ from bounded import common as bc
 
 ID = "C13"
 LEVEL = "proof"
+CROSSCHECK = True   # run the CPython cross-check of the executor encoding (pyvc/crosscheck.py)
 F = "moclo/moclo/record.py"
 FILES = [F]
 FUNCTIONS = [(F, "CircularRecord.__rshift__"), (F, "CircularRecord.__lshift__"), (F, "CircularRecord.__init__")]
